@@ -150,6 +150,8 @@ def main(argv=None):
     if not a.no_proof:
         try:
             from pyvc.driver import run_property
+            if tier == "thorough":
+                os.environ.setdefault("PYVC_SECOND_OPINION", "15")        # % of the proved obligations re-checked by z3 4.8.12
             proof = run_property(prop, tier, seed)
         except ImportError:
             proof = None
